@@ -17,7 +17,7 @@ import copy
 import signal
 import sys
 
-from fpy2.analysis import Alias, ArraySizeInfer, DefineUse, PartialEval, Purity, TypeInfer, ValueClassInfer
+from fpy2.analysis import Alias, ArraySizeInfer, ContextUse, DefineUse, PartialEval, Purity, TypeInfer, ValueClassInfer
 from fpy2.analysis.array_size import ListSize, TupleSize
 from fpy2.analysis.reaching_defs import AssignDef
 from fpy2.analysis.value_class import ValueClass
@@ -119,6 +119,29 @@ def static_info(fn, fmt_of_def=None, fmt_of_expr=None):
     owner: dict = {}
     purity_of: dict = {}
 
+    # what the context-use analysis resolved each scope to (only concrete contexts are claims)
+    cu_scope_of = None
+    decl = []
+    try:
+        cu = ContextUse.analyze(ast, partial_eval=pev)
+        resolved = {id(sc.site): sc.ctx for sc in cu.scopes}
+
+        def _cj(c):
+            if not isinstance(c, Context):
+                return None
+            try:
+                return value_json(c)
+            except (Unsupported, OutOfDomain, TypeError, ValueError):
+                return None
+
+        def cu_scope_of(st):
+            return _cj(resolved.get(id(st)))
+        d0 = _cj(resolved.get(id(ast)))
+        if d0 is not None:
+            decl = [d0]
+    except Exception:       # noqa: BLE001   a refusal of the analysis is no claim
+        cu_scope_of = None
+
     def only_pure_calls(node) -> bool:
         """every call in the statement's own expressions goes to a context constructor or to a function the purity analysis calls pure"""
         ok = True
@@ -182,13 +205,13 @@ def static_info(fn, fmt_of_def=None, fmt_of_expr=None):
                 f['fmt'] = [b]
         return f
 
-    def visit_block(block):
+    def visit_block(block, scope='0'):
         for st in block.stmts:
             L = line_of(st)
             if L in lines:
                 raise NotTraceable('two statements on one line')
             rec = {'k': 'other', 'defs': [], 'redef': [], 'uses': [], 'b0': -1, 'body': [], 'cc': [], 'ret': [],
-                   'frame': not isinstance(st, A.IndexedAssign) and only_pure_calls(st)}
+                   'frame': not isinstance(st, A.IndexedAssign) and only_pure_calls(st), 'sc': scope, 'wc': [], 'wt': []}
             lines[L] = rec
             owner[id(st)] = st
             if isinstance(st, A.Assign):
@@ -219,9 +242,9 @@ def static_info(fn, fmt_of_def=None, fmt_of_expr=None):
                 rec['b0'] = first_line(ift)
                 if st.cond in pev.by_expr and isinstance(pev.by_expr[st.cond], bool):
                     rec['cc'] = [pev.by_expr[st.cond]]
-                visit_block(ift)
+                visit_block(ift, scope)
                 if isinstance(st, A.IfStmt):
-                    visit_block(st.iff)
+                    visit_block(st.iff, scope)
             elif isinstance(st, A.WhileStmt):
                 if not _one_line(st.cond):
                     raise NotTraceable('condition spans lines')
@@ -230,7 +253,7 @@ def static_info(fn, fmt_of_def=None, fmt_of_expr=None):
                 rec['b0'] = first_line(st.body)
                 if st.cond in pev.by_expr and isinstance(pev.by_expr[st.cond], bool):
                     rec['cc'] = [pev.by_expr[st.cond]]
-                visit_block(st.body)
+                visit_block(st.body, scope)
             elif isinstance(st, A.ForStmt):
                 if not _one_line(st.iterable):
                     raise NotTraceable('iterable spans lines')
@@ -242,7 +265,7 @@ def static_info(fn, fmt_of_def=None, fmt_of_expr=None):
                     if f is not None:
                         rec['defs'].append(f)
                 before = set(lines)
-                visit_block(st.body)
+                visit_block(st.body, scope)
                 rec['body'] = sorted(str(x) for x in set(lines) - before)
             elif isinstance(st, A.ContextStmt):
                 if not _one_line(st.ctx):
@@ -254,8 +277,15 @@ def static_info(fn, fmt_of_def=None, fmt_of_expr=None):
                     f = def_facts(st.target, st)
                     if f is not None:
                         rec['defs'].append(f)
+                # what the context-use analysis resolved the block's context to (a concrete context), and the `as` target
+                if cu_scope_of is not None:
+                    cj = cu_scope_of(st)
+                    if cj is not None:
+                        rec['wc'] = [cj]
+                if isinstance(st.target, NamedId):
+                    rec['wt'] = [str(st.target)]
                 before = set(lines)
-                visit_block(st.body)
+                visit_block(st.body, str(L))
                 rec['body'] = sorted(str(x) for x in set(lines) - before)
             elif isinstance(st, A.ReturnStmt):
                 if not _one_line(st):
@@ -324,7 +354,7 @@ def static_info(fn, fmt_of_def=None, fmt_of_expr=None):
     except Exception:       # noqa: BLE001   a refusal (recursion, ...) is no claim
         pure = []
     names = sorted({f['n'] for r in lines.values() for f in r['defs']} | {f['n'] for f in params})
-    return {'name': ast.name, 'lines': {str(k): v for k, v in lines.items()}, 'params': params, 'names': names, 'pure': pure,
+    return {'name': ast.name, 'lines': {str(k): v for k, v in lines.items()}, 'params': params, 'names': names, 'pure': pure, 'decl': decl,
             'alias': sorted([list(p) for p in pairs]), 'nfacts': nfacts}
 
 
@@ -334,6 +364,13 @@ def static_info(fn, fmt_of_def=None, fmt_of_expr=None):
 def _snapshot(frame_locals, wanted):
     vals, objs = {}, {}
     for k, v in frame_locals.items():
+        if k == '__ctx__':
+            # the active rounding context of the compiled code
+            try:
+                vals[k] = value_json(v)
+            except (Unsupported, OutOfDomain, TypeError, ValueError):
+                vals[k] = {'k': 'ctx', 'c': {'fam': 'opaque', 'repr': str(v)[:200]}}
+            continue
         if k.startswith('__') or (wanted is not None and k not in wanted):
             continue
         try:
@@ -392,7 +429,15 @@ def record_run(fn, args, ctx, names=None, limit: int = 10, max_events: int = 400
 
     signal.signal(signal.SIGALRM, _alarm)
     signal.setitimer(signal.ITIMER_REAL, limit, 1.0)
-    out = {'ev': [], 'ret': [], 'exc': False, 'err': ''}
+    out = {'ev': [], 'ret': [], 'exc': False, 'err': '', 'cx0': []}
+    # the context the body starts under: the declared one, else the caller's, else binary64
+    import fpy2 as _fp
+    entry = fn.ast.ctx if fn.ast.ctx is not None else (ctx if ctx is not None else _fp.FP64)
+    if isinstance(entry, Context):
+        try:
+            out['cx0'] = [value_json(entry)]
+        except (Unsupported, OutOfDomain, TypeError, ValueError):
+            out['cx0'] = [{'k': 'ctx', 'c': {'fam': 'opaque', 'repr': str(entry)[:200]}}]
     try:
         sys.settrace(tracer)
         try:
